@@ -4,7 +4,8 @@
 (* pipeline.  Abstract state: the current values of the parameters (p, q)  *)
 (* and of the guesses (gx for the states, gu for the controls) of the OCP; *)
 (* fn: the function objects created so far, each remembering the argument  *)
-(* list and the values current at its creation.                            *)
+(* list and the values current at its creation (several may coexist, also *)
+(* with the same name and the same expressions: each is a fresh snapshot). *)
 (* Solve is uninterpreted: a solve is identified with the data it works    *)
 (* on.  The invariant states the property: calling F(vals) works on the    *)
 (* same data as: set the listed arguments imperatively (on an OCP whose    *)
@@ -18,18 +19,21 @@ MCArgs == {"p", "q", "gx"}        \* the model-checked instance uses three of th
 Vals == {1, 2}
 Init == cur = [p |-> 1, q |-> 1, gx |-> 0, gu |-> 0] /\ fn = <<>> /\ last = [kind |-> "none"]
 SetCur(a, v) == cur' = [cur EXCEPT ![a] = v] /\ UNCHANGED <<fn, last>>
-Make(args) == /\ Len(fn) < 1 /\ fn' = Append(fn, [args |-> args, snap |-> cur]) /\ UNCHANGED <<cur, last>>
+MaxFn == 2
+Make(args) == /\ Len(fn) < MaxFn /\ fn' = Append(fn, [args |-> args, snap |-> cur]) /\ UNCHANGED <<cur, last>>
 DataOfCall(f, vals) == [a \in ArgNames |-> IF a \in f.args THEN vals[a] ELSE f.snap[a]]
 Call(i, vals) == /\ i \in DOMAIN fn
                  /\ last' = [kind |-> "call", i |-> i, vals |-> vals, data |-> DataOfCall(fn[i], vals)]
                  /\ UNCHANGED <<cur, fn>>
 Next == \/ \E a \in MCArgs, v \in Vals : SetCur(a, v)
         \/ \E args \in SUBSET MCArgs : args # {} /\ Make(args)
-        \/ \E vals \in [ArgNames -> Vals] : vals.gu = 1 /\ Call(1, vals)
+        \/ \E i \in 1..MaxFn, vals \in [ArgNames -> Vals] : vals.gu = 1 /\ Call(i, vals)
 Spec == Init /\ [][Next]_vars
 \* the imperative pipeline on an OCP in the state at creation, with the listed arguments assigned
 Imperative(f, vals) == [a \in ArgNames |-> IF a \in f.args THEN vals[a] ELSE f.snap[a]]
 Reproduces == last.kind = "call" => last.data = Imperative(fn[last.i], last.vals)
 \* later imperative updates of the OCP do not leak into an existing function object
 Isolated == [][\A a \in MCArgs, v \in Vals : SetCur(a, v) => fn' = fn]_vars
+\* a function object made now snapshots the values current now, whatever was made before (no stale re-use)
+FreshSnapshot == [][Len(fn') > Len(fn) => fn'[Len(fn')].snap = cur]_vars
 =============================================================================
